@@ -2,6 +2,7 @@
 package main
 
 import (
+	"bytes"
 	"flag"
 	"fmt"
 	"os"
@@ -25,6 +26,9 @@ func main() {
 
 	start := time.Now()
 	col := core.NewCollector(*prop, *tier, *variant, *seed, *shard)
+	if *out != "" {
+		seq.CurrentFile = *out + ".current"
+	}
 	if *replay != "" {
 		if err := replayFile(col, *prop, *replay); err != nil {
 			fmt.Println("replay failed:", err)
@@ -47,13 +51,26 @@ func main() {
 
 func run(col *core.Collector, prop, tier, variant string, seed uint64, shard, nshards int, replayDir string) {
 	switch prop {
-	case "C01", "C03", "C07", "C10", "C11", "C12", "C13":
+	case "C01", "C03", "C07", "C10", "C11", "C12", "C13", "C20":
 		seq.RunProperty(col, prop, tier, seed, shard, nshards, replayDir)
+	case "C19":
+		seq.RunPersist(col, tier, seed, shard, nshards, replayDir)
 	default:
 		col.Inconclusive("no workload for " + prop)
 	}
 }
 
 func replayFile(col *core.Collector, prop, path string) error {
-	return seq.ReplayFile(col, path)
+	data, err := os.ReadFile(path)
+	if err != nil {
+		return err
+	}
+	switch {
+	case bytes.Contains(data, []byte(`"seq-regenerate"`)):
+		return seq.Regenerate(col, data, path)
+	case bytes.Contains(data, []byte(`"persist_case"`)):
+		return seq.ReplayPersist(col, data, path)
+	default:
+		return seq.ReplayFile(col, path)
+	}
 }
